@@ -132,7 +132,7 @@ func (bs *Scanner) Scan() bool {
 
 		if bs.rOffset == 0 {
 			if bs.start < bs.end {
-				bs.token = bytes.Trim(bs.buf[bs.start:bs.end], "\r\n")
+				bs.token = trimLine(bs.buf[bs.start:bs.end])
 				bs.done = true
 				return true
 			} else {
@@ -240,9 +240,25 @@ func (bs *Scanner) MaxConsecutiveEmptyReads(v int) {
 	bs.maxConsecutiveEmptyReads = v
 }
 
+// trimLine strips what does not belong to the line's content: the newline that ends the PREVIOUS line (the first
+// byte of the data when scanning backwards) and the single carriage return of a CRLF line ending, exactly like the
+// forward bufio.ScanLines does. Other carriage returns are part of the line. An empty line is nil.
+func trimLine(line []byte) []byte {
+	if len(line) > 0 && line[0] == '\n' {
+		line = line[1:]
+	}
+	if len(line) > 0 && line[len(line)-1] == '\r' {
+		line = line[:len(line)-1]
+	}
+	if len(line) == 0 {
+		return nil
+	}
+	return line
+}
+
 func ScanLines(data []byte) (advance int, token []byte, err error) {
 	if i := bytes.LastIndexByte(data, '\n'); i >= 0 {
-		return i, bytes.Trim(data[i:], "\r\n"), nil
+		return i, trimLine(data[i:]), nil
 	}
 
 	// Request more data.
